@@ -28,6 +28,8 @@ enum Kind {
     WriteAllErr,
     /// `let mut l = anstream::stdout().lock(); write!(l, ..); write!(l, ..)`: one contiguous group
     LockedOutGroup,
+    /// the same through `anstream::stderr().lock()`
+    LockedErrGroup,
     SetGlobal(u8),
     GetGlobal,
 }
@@ -72,7 +74,7 @@ fn generate(scen_seed: u64) -> Scenario {
             if register && rng.chance(1, 2) {
                 calls.push(Call { kind: if rng.chance(2, 3) { Kind::SetGlobal(1 + 2 * rng.below(2) as u8) } else { Kind::GetGlobal }, frags: vec![] });
             }
-            let kind = match rng.below(9) {
+            let kind = match rng.below(10) {
                 0 => Kind::Print,
                 1 => Kind::Println,
                 2 => Kind::Eprint,
@@ -81,6 +83,7 @@ fn generate(scen_seed: u64) -> Scenario {
                 5 => Kind::WritelnErr,
                 6 => Kind::WriteAllOut,
                 7 => Kind::WriteAllErr,
+                8 => Kind::LockedErrGroup,
                 _ => Kind::LockedOutGroup,
             };
             calls.push(Call { kind, frags: frags(&mut rng, t, c) });
@@ -149,6 +152,11 @@ fn run_calls(sc: &Scenario, t: usize, bad: &std::sync::Mutex<Vec<String>>) {
                 let mut l = anstream::stdout().lock();
                 write!(l, "{}", Frags(&f[..2])).unwrap();
                 write!(l, "{}", Frags(&f[2..])).unwrap();
+            }
+            Kind::LockedErrGroup => {
+                let mut l = anstream::stderr().lock();
+                write!(l, "{}", Frags(&f[..2])).unwrap();
+                l.write_all(f[2..].concat().as_bytes()).unwrap();
             }
             Kind::SetGlobal(v) => choice_of(v).write_global(),
             Kind::GetGlobal => {
@@ -256,7 +264,7 @@ fn expected(sc: &Scenario, call: &Call) -> Option<(bool, Vec<Vec<u8>>)> {
     let (err, raw) = match call.kind {
         Kind::Print | Kind::WriteOut | Kind::WriteAllOut | Kind::LockedOutGroup => (false, raw),
         Kind::Println => (false, raw + "\n"),
-        Kind::Eprint | Kind::WriteAllErr => (true, raw),
+        Kind::Eprint | Kind::WriteAllErr | Kind::LockedErrGroup => (true, raw),
         Kind::Eprintln | Kind::WritelnErr => (true, raw + "\n"),
         _ => return None,
     };
